@@ -1378,6 +1378,117 @@ func posSources(w *World, lf *LexFacts, info *types.Info, loop *ast.ForStmt, arm
 		if !assignsRow {
 			continue
 		}
+		// a position variable set back to a constant (column 1) only under a test on the
+		// number of line breaks consumed: a lexeme that stays on its line keeps its column
+		var resets []string
+		var stack []ast.Node
+		ast.Inspect(arm.Body, func(nd ast.Node) bool {
+			if nd == nil {
+				stack = stack[:len(stack)-1]
+				return true
+			}
+			stack = append(stack, nd)
+			as, ok := nd.(*ast.AssignStmt)
+			if !ok || as.Tok != token.ASSIGN {
+				return true
+			}
+			for k, l := range as.Lhs {
+				o := objOf(l)
+				if o == nil || o == rowObj || within(arm.Body, o.Pos()) || k >= len(as.Rhs) {
+					continue
+				}
+				b, ok := o.Type().Underlying().(*types.Basic)
+				if !ok || b.Info()&types.IsInteger == 0 {
+					continue
+				}
+				// constant right-hand side (directly or a variable that only ever holds a constant)
+				isConst := false
+				if tv, ok := info.Types[as.Rhs[k]]; ok && tv.Value != nil {
+					isConst = true
+				} else if ro := objOf(as.Rhs[k]); ro != nil {
+					all := len(defs[ro]) > 0
+					for _, d := range defs[ro] {
+						if tv, ok := info.Types[d.rhs]; !ok || tv.Value == nil {
+							all = false
+						}
+					}
+					isConst = all
+				}
+				if !isConst {
+					continue
+				}
+				guarded := false
+				for _, anc := range stack {
+					ifs, ok := anc.(*ast.IfStmt)
+					if !ok {
+						continue
+					}
+					for _, root := range []ast.Node{ifs.Init, ifs.Cond} {
+						if root == nil || (root == ifs.Init && ifs.Init == nil) {
+							continue
+						}
+						if containsNode(root, func(n ast.Node) bool {
+							switch x := n.(type) {
+							case *ast.CallExpr:
+								if co := calleeObj(info, x); co != nil && co.Pkg() != nil && co.Pkg().Name() == "strings" && (co.Name() == "Split" || co.Name() == "Count" || co.Name() == "Contains" || co.Name() == "Index" || co.Name() == "LastIndex") {
+									return true
+								}
+							case *ast.Ident:
+								if io := objOf(x); io != nil {
+									for _, d := range defs[io] {
+										if d.rhs != nil && containsNode(d.rhs, func(n2 ast.Node) bool {
+											c2, ok := n2.(*ast.CallExpr)
+											if !ok {
+												return false
+											}
+											co := calleeObj(info, c2)
+											return co != nil && co.Pkg() != nil && co.Pkg().Name() == "strings" && (co.Name() == "Split" || co.Name() == "Count")
+										}) {
+											return true
+										}
+										// one more step: len(lines)-1 where lines comes from Split
+										if d.rhs != nil && containsNode(d.rhs, func(n2 ast.Node) bool {
+											id2, ok := n2.(*ast.Ident)
+											if !ok {
+												return false
+											}
+											for _, d2 := range defs[objOf(id2)] {
+												if d2.rhs != nil && containsNode(d2.rhs, func(n3 ast.Node) bool {
+													c3, ok := n3.(*ast.CallExpr)
+													if !ok {
+														return false
+													}
+													co := calleeObj(info, c3)
+													return co != nil && co.Pkg() != nil && co.Pkg().Name() == "strings" && (co.Name() == "Split" || co.Name() == "Count")
+												}) {
+													return true
+												}
+											}
+											return false
+										}) {
+											return true
+										}
+									}
+								}
+							}
+							return false
+						}) {
+							guarded = true
+						}
+					}
+				}
+				if !guarded {
+					resets = append(resets, o.Name())
+				}
+			}
+			return true
+		})
+		rkey := fmt.Sprintf("pos:reset:arm#%d", i)
+		if len(resets) > 0 {
+			r.Bad("R-C11-pos", rkey, w.Pos(arm.Pos), fmt.Sprintf("%v is set back to a constant whether or not the lexeme contained a line break: after a lexeme of this arm that stays on one line (x /* c */ y) the following tokens report a column counted from the start of the line's lexeme instead of their own", uniq(resets)))
+		} else {
+			r.Ok("R-C11-pos", rkey, w.Pos(arm.Pos), "the column base is set back to the line start only under a test on the line breaks consumed")
+		}
 		key := fmt.Sprintf("pos:source:arm#%d", i)
 		if len(bad) == 0 {
 			r.Ok("R-C11-pos", key, w.Pos(arm.Pos), fmt.Sprintf("%d position updates, all computed from the consumed source text", n))
